@@ -37,6 +37,11 @@ func runC19(p *Prog, r *Report) {
 	r.Describe("C19.8/queue-swap-wakes", "a queue-length option takes effect for calls already blocked: the step that installs the new queue closes the object's sizeQ")
 	queueSwapWakes(p, r, "C19.8/queue-swap-wakes", func(rel string) bool { return strings.HasPrefix(rel, "protocol/") })
 	r.Floor("C19.8/queue-swap-wakes", "e10.queue_swaps", 15)
+	waitedChannelStable(p, r, "C19.21/waited-channel-stable", func(rel string) bool {
+		return strings.HasPrefix(rel, "protocol/") || strings.HasPrefix(rel, "transport") || rel == "internal/core"
+	})
+	r.Floor("C19.21/waited-channel-stable", "e13.waited_fields.C19.21/waited-channel-stable", 40)
+	r.Floor("C19.21/waited-channel-stable", "e13.replacements.C19.21/waited-channel-stable", 15)
 	{
 		q := NewQ(p, r)
 		R := "C19.7/refused-device-has-no-effect"
